@@ -7,10 +7,16 @@ package c16
 // host signature value.
 
 import (
+	"bytes"
 	"context"
 	"crypto"
+	"crypto/ecdsa"
+	"crypto/rand"
+	"crypto/rsa"
+	"crypto/sha256"
 	"crypto/x509"
 	"fmt"
+	"io"
 	"math/big"
 	"testing"
 
@@ -92,6 +98,162 @@ func TestC16_TokensBehindTheClient(t *testing.T) {
 		}
 		if found != 1 {
 			fail(t, test, behaviour.String(), nil, ts.Raw, "%d timestamp tokens in the emitted signature, want 1", found)
+		}
+	})
+}
+
+// berCertificate re-issues a certificate with one non-minimal length inside its signed
+// part (the serial number's length in long form), signed by the CA over exactly those
+// bytes: a certificate from an issuer that writes BER. Re-encoding it to DER breaks the
+// issuer's signature.
+func berCertificate(derCert []byte, caKey crypto.Signer) ([]byte, error) {
+	top, err := der.ParseAll(derCert)
+	if err != nil {
+		return nil, err
+	}
+	kids, err := top.Children()
+	if err != nil || len(kids) != 3 {
+		return nil, fmt.Errorf("certificate shape")
+	}
+	tbsKids, err := kids[0].Children()
+	if err != nil || len(tbsKids) < 6 {
+		return nil, fmt.Errorf("tbs shape")
+	}
+	si := 0
+	if tbsKids[0].Class != 0 {
+		si = 1 // [0] version first
+	}
+	serial := tbsKids[si]
+	if len(serial.Content) > 127 {
+		return nil, fmt.Errorf("serial too long")
+	}
+	var content []byte
+	for i, k := range tbsKids {
+		if i == si {
+			content = append(content, 0x02, 0x81, byte(len(serial.Content)))
+			content = append(content, serial.Content...)
+		} else {
+			content = append(content, k.Raw...)
+		}
+	}
+	tbs := der.EncTLV(0, true, 16, content)
+	sum := sha256.Sum256(tbs)
+	sig, err := caKey.Sign(rand.Reader, sum[:], crypto.SHA256)
+	if err != nil {
+		return nil, err
+	}
+	return der.EncSeq(tbs, kids[1].Raw, der.EncBitString(sig, 0)), nil
+}
+
+// certSignatureGood checks the issuer's signature over a certificate as it is encoded.
+func certSignatureGood(raw []byte, ca *x509.Certificate) error {
+	top, err := der.ParseAll(raw)
+	if err != nil {
+		return err
+	}
+	kids, err := top.Children()
+	if err != nil || len(kids) != 3 || len(kids[2].Content) < 2 {
+		return fmt.Errorf("certificate shape")
+	}
+	sum := sha256.Sum256(kids[0].Raw)
+	switch pub := ca.PublicKey.(type) {
+	case *rsa.PublicKey:
+		return rsa.VerifyPKCS1v15(pub, crypto.SHA256, sum[:], kids[2].Content[1:])
+	case *ecdsa.PublicKey:
+		if !ecdsa.VerifyASN1(pub, sum[:], kids[2].Content[1:]) {
+			return fmt.Errorf("ECDSA verification failed")
+		}
+		return nil
+	}
+	return fmt.Errorf("unsupported CA key")
+}
+
+// TestC16_BERCertificateInReply: an authority whose certificate was issued in BER (a
+// non-minimal length inside the signed part). relic may refuse the reply - its parser is
+// DER-only - but if it takes it, the certificate must travel byte for byte: the issuer's
+// signature over the emitted certificate still verifies.
+func TestC16_BERCertificateInReply(t *testing.T) {
+	const test = "TestC16_BERCertificateInReply"
+	x, err := x509.ParseCertificate(gkeys.TSA.Cert.Raw)
+	if err != nil || x.SignatureAlgorithm != x509.SHA256WithRSA {
+		t.Fatalf("harness: authority certificate: %v %v", err, x.SignatureAlgorithm)
+	}
+	ber, err := berCertificate(gkeys.TSA.Cert.Raw, gkeys.CAKey)
+	if err != nil {
+		t.Fatalf("harness: %v", err)
+	}
+	if err := certSignatureGood(ber, gkeys.CA); err != nil {
+		t.Fatalf("harness: the BER certificate does not verify under the CA: %v", err)
+	}
+	if err := certSignatureGood(gkeys.TSA.Cert.Raw, gkeys.CA); err != nil {
+		t.Fatalf("harness: the DER certificate does not verify under the CA: %v", err)
+	}
+	rapid.Check(t, func(t *rapid.T) {
+		a := gkeys.TSA.Clone()
+		c := *a.Cert
+		c.Raw = ber
+		a.Cert = &c
+		a.IncludeCerts = true
+		a.HashForSigning = rapid.SampledFrom([]crypto.Hash{crypto.SHA256, crypto.SHA384}).Draw(t, "tsahash")
+		outerToo := rapid.Bool().Draw(t, "outer_length_non_minimal")
+		ih := rapid.SampledFrom([]crypto.Hash{crypto.SHA256, crypto.SHA512}).Draw(t, "imprinthash")
+		sb := pkcs7.NewBuilder(keys.Key("p256a"), []*x509.Certificate{env.Leaf["p256a"], env.Inter.Cert}, ih)
+		if err := sb.SetContentData([]byte("payload")); err != nil {
+			t.Fatal(err)
+		}
+		host, err := sb.Sign()
+		if err != nil {
+			t.Fatalf("builder: %v", err)
+		}
+		hh := ih.New()
+		hh.Write(host.Content.SignerInfos[0].EncryptedDigest)
+		msg, httpReq, err := pkcs9.NewRequest("http://tsa.invalid/", ih, hh.Sum(nil))
+		if err != nil {
+			t.Fatalf("NewRequest: %v", err)
+		}
+		reqDER, _ := io.ReadAll(httpReq.Body)
+		_, _, body := a.Respond(reqDER, tsa.Valid)
+		if outerToo && len(body) > 4 && body[1] == 0x82 {
+			// 30 82 hh ll -> 30 83 00 hh ll
+			body = append([]byte{0x30, 0x83, 0x00}, body[2:]...)
+		}
+		rec.Case(fmt.Sprintf("ber-reply|%v|%v|%v", a.HashForSigning, ih, outerToo), "ber-certificate-in-reply", true)
+		rec.Sample("ber-certificate-in-reply", map[string]any{"tsa_hash": a.HashForSigning.String(), "imprint_hash": ih.String(), "outer_length_non_minimal": outerToo})
+		tok, err := msg.ParseResponse(body)
+		if err != nil {
+			return // refused: nothing is emitted
+		}
+		if err := pkcs9.AddStampToSignedData(&host.Content.SignerInfos[0], *tok); err != nil {
+			return
+		}
+		out, err := host.Marshal()
+		if err != nil {
+			return
+		}
+		sd, err := der.ParseSignedData(out)
+		if err != nil {
+			fail(t, test, "ber", nil, out, "independent parser rejects relic's output: %v", err)
+		}
+		checked := 0
+		for _, ua := range sd.SignerInfos[0].UnsignedAttrs {
+			for _, v := range ua.Values {
+				nested, err := der.ParseSignedData(v.Raw)
+				if err != nil {
+					continue
+				}
+				for _, crt := range nested.Certificates {
+					if !bytes.Contains(crt.Raw, []byte("c16 TSA")) {
+						continue
+					}
+					checked++
+					if err := certSignatureGood(crt.Raw, gkeys.CA); err != nil {
+						fail(t, test, "ber", nil, out, "relic took a reply whose authority certificate is BER-encoded and emits that certificate re-encoded: the issuer's signature over it no longer verifies (%v)", err)
+					}
+				}
+			}
+		}
+		if checked == 0 {
+			fail(t, test, "ber", nil, out, "the emitted token does not carry the authority's certificate")
 		}
 	})
 }
